@@ -333,7 +333,9 @@ Lemma step_es : forall s l s', step s l = Some s' ->
   exists es, s_log s' = s_log s ++ es /\
   ( nosub es
     \/ (exists tid t ev, lookup tid (s_thr s) = Some t /\ t_pc t = PEnqueue ev /\
-                          enq_of es = [ev] /\ submits_of (mon_hist es) = [])
+                          enq_of es = [ev] /\ submits_of (mon_hist es) = [] /\
+                          exists t', lookup tid (s_thr s') = Some t' /\ t_op t' = t_op t /\
+                                     match t_pc t' with PEnqueue _ => False | _ => True end)
     \/ (exists st ev rest_p (d : bool), s_mon s = MRun st (ATrySubmit ev :: rest_p) /\
                           mon_hist es = [ATrySubmit ev] /\ enq_of es = (if d then [] else [ev])) ).
 Proof.
@@ -342,7 +344,8 @@ Proof.
     destruct op; unfold start_enqueue in H; inv_step H; (eexists; split; [log_ext|left; solve_nosub]).
   - unfold System.api_act in H. inv_step H; (eexists; split; [log_ext|]);
       first [ left; solve_nosub; fail
-            | right; left; do 3 eexists; repeat split; eauto ].
+            | right; left; do 3 eexists; (split; [eassumption|split; [eassumption|split; [reflexivity|split; [reflexivity|]]]]);
+              eexists; (split; [cbn; rewrite lookup_update, N.eqb_refl; reflexivity|split; [reflexivity|exact I]]) ].
   - unfold System.mon_recv_step in H. inv_step H; rewrite (mon_take_log stack verify p);
       (eexists; split; [log_ext|left; solve_nosub]).
   - unfold System.mon_act_step in H. inv_step H; subst; (eexists; split; [log_ext|]);
@@ -374,7 +377,7 @@ Lemma inv_wf_step : forall c0 st0 log0 s l s',
   step s l = Some s' -> inv_wf s'.
 Proof.
   intros c0 st0 log0 s l s' H0 R T [W1 [W2 W3]] H.
-  destruct (step_es s l s' H) as [es [L [[E1 E2]|[[tid [t [ev [Hl [Hpc [E1 E2]]]]]]|[st [ev [rest_p [d [Em [E1 E2]]]]]]]]]];
+  destruct (step_es s l s' H) as [es [L [[E1 E2]|[[tid [t [ev [Hl [Hpc [E1 [E2 _]]]]]]]|[st [ev [rest_p [d [Em [E1 E2]]]]]]]]]];
     unfold inv_wf; rewrite L, enq_of_app, mon_hist_app, submits_of_app.
   - (* nothing for the queue *)
     rewrite E1, E2, !app_nil_r. auto.
@@ -526,6 +529,251 @@ Proof.
   destruct (first_reg h (taken_of (s_log s))).
   - rewrite deliveries_app in S. eapply sorted_above_prefix; eauto.
   - eapply deliveries_prefix_nil; eauto.
+Qed.
+
+(* ---------- a handle reaches the queue at most once ---------- *)
+
+Definition is_reg_op (h : N) (op : api_op sv) : bool :=
+  match op with OpRegister h' _ => h' =? h | _ => false end.
+Definition not_enq (c : pc cfg sv) : bool := match c with PEnqueue _ => false | _ => true end.
+
+Lemma lookup_in : forall {A} k (a : A) l, lookup k l = Some a -> In (k, a) l.
+Proof.
+  induction l as [|[k0 a0] r IH]; cbn; intros H; [discriminate|].
+  destruct (k0 =? k) eqn:E; [apply N.eqb_eq in E; inversion H; subst; left; reflexivity|right; auto].
+Qed.
+
+(* how a step changes the thread table *)
+Lemma step_thr_shape : forall s l s', step s l = Some s' ->
+  s_thr s' = s_thr s \/
+  (exists tid t t', lookup tid (s_thr s) = Some t /\ s_thr s' = update tid t' (s_thr s) /\
+     t_op t' = t_op t /\ (forall ev, t_pc t' = PEnqueue ev -> t_pc t = PEnqueue ev)) \/
+  (exists tid op t', l = LApiStart tid op /\ lookup tid (s_thr s) = None /\ s_thr s' = update tid t' (s_thr s) /\
+     t_op t' = op /\
+     (forall ev, t_pc t' = PEnqueue ev ->
+        match ev with
+        | EvReg h _ => is_reg_op h op = true /\ existsb (registers h) (s_thr s) = false
+        | EvUnreg _ _ => True
+        | _ => False
+        end) /\
+     (forall h, is_reg_op h op = true -> existsb (registers h) (s_thr s) = false)).
+Proof.
+  intros s l s' H. destruct l; cbn [System.step] in H.
+  - right. right. unfold System.api_start in H. destruct (lookup tid (s_thr s)) eqn:El; [discriminate|].
+    destruct op; unfold start_enqueue in H; inv_step H;
+      (eexists tid, _, _; split; [reflexivity|split; [exact El|split; [cbn; reflexivity|split; [reflexivity|]]]]);
+      cbn; (split; [intros ev Hev; try discriminate; try (inversion Hev; subst; cbn; rewrite ?N.eqb_refl; auto)
+                   |intros h0 Hh; try discriminate; try (apply N.eqb_eq in Hh; subst; assumption)]).
+  - unfold System.api_act in H. destruct (lookup tid (s_thr s)) as [t|] eqn:El; [|discriminate].
+    destruct (t_pc t) eqn:Epc; inv_step H; right; left; exists tid, t; eexists;
+      (split; [exact El|split; [reflexivity|split; [reflexivity|cbn; intros; discriminate]]]).
+  - unfold System.mon_recv_step in H. inv_step H;
+    match goal with |- context [s_thr (mon_take _ _ _ ?s1 ?st ?i)] =>
+      destruct (mon_take_fields stack verify p s1 st i) as [_ [_ [_ [_ [_ [Ft _]]]]]]; rewrite Ft end;
+    try (left; reflexivity);
+    right; left; do 3 eexists; (split; [eassumption|split; [reflexivity|split; [reflexivity|cbn; intros; discriminate]]]).
+  - left. unfold System.mon_act_step in H. inv_step H; reflexivity.
+  - left. unfold System.cb_take_step in H. inv_step H; reflexivity.
+  - left. unfold cb_return_step in H. inv_step H. reflexivity.
+  - left. unfold cb_ack_step in H. inv_step H. reflexivity.
+  - left. destruct (s_main s); [discriminate|]. inversion H. reflexivity.
+  - unfold cancel_call in H. destruct (lookup tid (s_thr s)) as [t|] eqn:El; [|discriminate].
+    destruct (t_cancel t); [discriminate|].
+    destruct (t_pc t) eqn:Epc; inv_step H; right; left; exists tid, t; eexists;
+      (split; [exact El|split; [reflexivity|split; [reflexivity|cbn; intros ev' Hev; try discriminate; congruence]]]).
+Qed.
+
+(* the monitor submits new-config and error events only *)
+Definition is_mon_ev (ev : cb_event) : Prop :=
+  match ev with EvNew _ _ _ _ | EvErr _ _ _ => True | _ => False end.
+
+Lemma recv_submit_kind : forall cur st (i : mon_in sv) ev,
+  In (ATrySubmit ev) (snd (mon_recv stack verify p cur st i)) -> is_mon_ev ev.
+Proof.
+  intros cur st i ev H. destruct i as [src x rid|src|src|rid|]; cbn [mon_recv] in H.
+  - destruct (stack _) as [c|]; [destruct (m_skip st); [|destruct (verify c)]|]; destruct rid; cbn in H;
+      repeat (destruct H as [H|H]; [try discriminate; inversion H; exact I|]); destruct H.
+  - cbn [snd] in H. destruct (src_err_delivered p (m_skip st)); cbn in H;
+      repeat (destruct H as [H|H]; [try discriminate; inversion H; exact I|]); destruct H.
+  - cbn [snd] in H. destruct (existsb _ _); cbn in H;
+      repeat (destruct H as [H|H]; [try discriminate; inversion H; exact I|]); destruct H.
+  - destruct (m_skip st); [destruct (verify (snd cur))|]; cbn in H;
+      repeat (destruct H as [H|H]; [try discriminate; inversion H; exact I|]); destruct H.
+  - cbn in H. repeat (destruct H as [H|H]; [try discriminate; inversion H; exact I|]); destruct H.
+Qed.
+
+Lemma trace_submit_kind : forall ins cur st ev, In (ATrySubmit ev) (trace cur st ins) -> is_mon_ev ev.
+Proof.
+  induction ins as [|i r IH]; intros cur st ev H; [destruct H|].
+  unfold MonitorProofs.trace in H. fold (trace cur st (i :: r)) in H.
+  rewrite (trace_cons stack verify p) in H. apply in_app_or in H. destruct H as [H|H].
+  - eapply recv_submit_kind; eauto.
+  - eapply IH; eauto.
+Qed.
+
+Record inv_reg (s : sys) : Prop := mkInvReg {
+  ir_uniq : forall h tid t tid' t', lookup tid (s_thr s) = Some t -> lookup tid' (s_thr s) = Some t' ->
+            is_reg_op h (t_op t) = true -> is_reg_op h (t_op t') = true -> tid = tid';
+  ir_pend : forall tid t h tok, lookup tid (s_thr s) = Some t -> t_pc t = PEnqueue (EvReg h tok) ->
+            is_reg_op h (t_op t) = true;
+  ir_enq : forall h, existsb (reg_of h) (enq_of (s_log s)) = true ->
+           exists tid t, lookup tid (s_thr s) = Some t /\ is_reg_op h (t_op t) = true /\ not_enq (t_pc t) = true;
+  ir_once : forall h, reg_once h (enq_of (s_log s))
+}.
+
+Lemma no_reg_iff : forall h (l : list cb_event), no_reg h l <-> existsb (reg_of h) l = false.
+Proof.
+  intros h l. unfold no_reg. induction l as [|e l IH]; cbn; [tauto|].
+  destruct (reg_of h e); cbn; [split; discriminate|exact IH].
+Qed.
+
+Lemma reg_once_snoc : forall h (a : list cb_event) e,
+  reg_once h a -> (reg_of h e = true -> existsb (reg_of h) a = false) -> reg_once h (a ++ [e]).
+Proof.
+  induction a as [|x a IH]; intros e Ho He; cbn.
+  - destruct (reg_of h e); [reflexivity|exact I].
+  - cbn in Ho. destruct (reg_of h x) eqn:Ex.
+    + apply no_reg_iff. rewrite existsb_app. apply no_reg_iff in Ho. rewrite Ho. cbn.
+      destruct (reg_of h e) eqn:Ee; [|reflexivity]. specialize (He eq_refl). cbn in He. rewrite Ex in He. discriminate.
+    + apply IH; [exact Ho|]. intros Ee. specialize (He Ee). cbn in He. rewrite Ex in He. exact He.
+Qed.
+
+Lemma not_registered : forall h (thr : list (N * thread cfg sv)) tid t,
+  existsb (registers h) thr = false -> lookup tid thr = Some t -> is_reg_op h (t_op t) = false.
+Proof.
+  intros h thr tid t He Hl. apply lookup_in in Hl.
+  destruct (is_reg_op h (t_op t)) eqn:E; [|reflexivity].
+  assert (existsb (registers h) thr = true) by (apply existsb_exists; exists (tid, t); split; [exact Hl|exact E]).
+  congruence.
+Qed.
+
+(* the thread-table part of inv_reg along any step, and the witnesses of ir_enq *)
+Lemma inv_reg_threads : forall s l s', inv_reg s -> step s l = Some s' ->
+  (forall h tid t tid' t', lookup tid (s_thr s') = Some t -> lookup tid' (s_thr s') = Some t' ->
+     is_reg_op h (t_op t) = true -> is_reg_op h (t_op t') = true -> tid = tid') /\
+  (forall tid t h tok, lookup tid (s_thr s') = Some t -> t_pc t = PEnqueue (EvReg h tok) -> is_reg_op h (t_op t) = true) /\
+  (forall h tid t, lookup tid (s_thr s) = Some t -> is_reg_op h (t_op t) = true -> not_enq (t_pc t) = true ->
+     exists t', lookup tid (s_thr s') = Some t' /\ is_reg_op h (t_op t') = true /\ not_enq (t_pc t') = true).
+Proof.
+  intros s l s' [U P _ _] H.
+  destruct (step_thr_shape s l s' H) as [T|[[tid0 [t0 [t0' [Hl0 [T [Hop Hpc]]]]]]|[tid0 [op [t0' [_ [Hn [T [Hop [Hpc Hreg]]]]]]]]]]; rewrite T.
+  - repeat split; eauto.
+  - (* an existing thread moves on; its operation is unchanged *)
+    assert (Back : forall tid t, lookup tid (update tid0 t0' (s_thr s)) = Some t ->
+              exists t1, lookup tid (s_thr s) = Some t1 /\ t_op t1 = t_op t /\
+                         (forall ev, t_pc t = PEnqueue ev -> t_pc t1 = PEnqueue ev)).
+    { intros tid t Hl. rewrite lookup_update in Hl. destruct (tid =? tid0) eqn:E.
+      - apply N.eqb_eq in E. subst. inversion Hl; subst. exists t0. auto.
+      - exists t. auto. }
+    repeat split.
+    + intros h tid t tid' t' H1 H2 R1 R2.
+      destruct (Back _ _ H1) as [a [A1 [A2 _]]]. destruct (Back _ _ H2) as [b [B1 [B2 _]]].
+      eapply (U h tid a tid' b); eauto; congruence.
+    + intros tid t h tok H1 H2. destruct (Back _ _ H1) as [a [A1 [A2 A3]]].
+      rewrite <- A2. eapply P; eauto.
+    + intros h tid t H1 R N. rewrite lookup_update. destruct (tid =? tid0) eqn:E.
+      * apply N.eqb_eq in E. subst. rewrite Hl0 in H1. inversion H1; subst.
+        exists t0'. split; [reflexivity|]. split; [rewrite Hop; exact R|].
+        destruct (t_pc t0') eqn:Ep; try reflexivity. rewrite (Hpc ev eq_refl) in N. discriminate.
+      * exists t. auto.
+  - (* a new thread *)
+    assert (Back : forall tid t, lookup tid (update tid0 t0' (s_thr s)) = Some t ->
+              (tid = tid0 /\ t = t0') \/ (tid <> tid0 /\ lookup tid (s_thr s) = Some t)).
+    { intros tid t Hl. rewrite lookup_update in Hl. destruct (tid =? tid0) eqn:E.
+      - apply N.eqb_eq in E. inversion Hl; subst. auto.
+      - apply N.eqb_neq in E. auto. }
+    repeat split.
+    + intros h tid t tid' t' H1 H2 R1 R2.
+      destruct (Back _ _ H1) as [[-> ->]|[N1 O1]]; destruct (Back _ _ H2) as [[-> ->]|[N2 O2]]; auto.
+      * rewrite Hop in R1. pose proof (not_registered h _ _ _ (Hreg h R1) O2). congruence.
+      * rewrite Hop in R2. pose proof (not_registered h _ _ _ (Hreg h R2) O1). congruence.
+      * eapply U; eauto.
+    + intros tid t h tok H1 H2. destruct (Back _ _ H1) as [[-> ->]|[N1 O1]].
+      * specialize (Hpc _ H2). cbn in Hpc. rewrite Hop. tauto.
+      * eapply P; eauto.
+    + intros h tid t H1 R N. exists t. rewrite lookup_update.
+      destruct (tid =? tid0) eqn:E; [apply N.eqb_eq in E; subst; congruence|auto].
+Qed.
+
+Lemma inv_reg_step : forall c0 st0 log0 s l s',
+  inv_ref stack verify p (0, c0) st0 log0 s -> inv_reg s -> step s l = Some s' -> inv_reg s'.
+Proof.
+  intros c0 st0 log0 s l s' R I H.
+  destruct (inv_reg_threads s l s' I H) as [U' [P' K]].
+  destruct I as [U P Q O].
+  destruct (step_es s l s' H) as [es [L [[E1 _]|[[tid [t [ev [Hl [Hpc [E1 [_ [t' [Hl' [Hop' Hpc']]]]]]]]]]|[st [ev [rest_p [d [Em [_ E1]]]]]]]]]].
+  - (* the queue history is unchanged *)
+    constructor; auto; rewrite L, enq_of_app, E1, app_nil_r; auto.
+    intros h Hh. destruct (Q h Hh) as [tid [t [A [B C]]]]. destruct (K h tid t A B C) as [t' [A' [B' C']]]. eauto.
+  - (* an API goroutine enqueues ev *)
+    constructor; auto; rewrite L, enq_of_app, E1.
+    + intros h Hh. rewrite existsb_app in Hh. apply orb_true_iff in Hh. destruct Hh as [Hh|Hh].
+      * destruct (Q h Hh) as [tid1 [t1 [A [B C]]]]. destruct (K h tid1 t1 A B C) as [t1' [A' [B' C']]]. eauto.
+      * cbn in Hh. rewrite orb_false_r in Hh. destruct ev; cbn in Hh; try discriminate.
+        apply N.eqb_eq in Hh. subst h0.
+        exists tid, t'. split; [exact Hl'|]. split.
+        -- rewrite Hop'. eapply P; eauto.
+        -- destruct (t_pc t'); try reflexivity. destruct Hpc'.
+    + intros h. apply reg_once_snoc; [apply O|]. intros Hr.
+      destruct ev; cbn in Hr; try discriminate. apply N.eqb_eq in Hr. subst h0.
+      destruct (existsb (reg_of h) (enq_of (s_log s))) eqn:Ee; [|reflexivity]. exfalso.
+      destruct (Q h Ee) as [tid1 [t1 [A [B C]]]].
+      assert (tid1 = tid) by (eapply (U h); eauto). subst tid1.
+      rewrite Hl in A. inversion A; subst t1. rewrite Hpc in C. discriminate.
+  - (* the monitor submits (or drops) ev: never a registration *)
+    assert (Hk : is_mon_ev ev).
+    { destruct R as [rest [_ Rm]]. rewrite Em in Rm. destruct Rm as [Rt _].
+      eapply (trace_submit_kind (recvs rest) (0, c0) st0). unfold MonitorProofs.trace in *. rewrite <- Rt.
+      apply in_or_app. right. left. reflexivity. }
+    assert (Hr : forall h, reg_of h ev = false) by (intros h; destruct ev; try reflexivity; destruct Hk).
+    constructor; auto; rewrite L, enq_of_app, E1; destruct d; rewrite ?app_nil_r; auto.
+    + intros h Hh. destruct (Q h Hh) as [tid1 [t1 [A [B C]]]]. destruct (K h tid1 t1 A B C) as [t1' [A' [B' C']]]. eauto.
+    + intros h Hh. rewrite existsb_app in Hh. cbn in Hh. rewrite Hr, !orb_false_r in Hh.
+      destruct (Q h Hh) as [tid1 [t1 [A [B C]]]]. destruct (K h tid1 t1 A B C) as [t1' [A' [B' C']]]. eauto.
+    + intros h. apply reg_once_snoc; [apply O|]. rewrite Hr. discriminate.
+Qed.
+
+Lemma init_inv_reg : forall inits watching s0,
+  snd (sys_init stack verify p inits watching) = Ok s0 -> inv_reg s0.
+Proof.
+  intros inits watching s0 H.
+  destruct (init_shape stack verify p inits watching s0 H) as [c0 [st0 [_ [_ [_ [_ [L _]]]]]]].
+  destruct (nosub_verifs (cr_verify_log (config_init stack verify p inits watching))) as [A _].
+  assert (Ht : s_thr s0 = []).
+  { unfold sys_init in H. cbn [snd] in H.
+    destruct (cr_out (config_init stack verify p inits watching)) as [[v st]| |]; try discriminate.
+    inversion H; subst. reflexivity. }
+  constructor; rewrite ?Ht, ?L, ?A; cbn; try discriminate; auto.
+Qed.
+
+Theorem handles_enqueued_once_l : forall inits watching s0 ls s h,
+  snd (sys_init stack verify p inits watching) = Ok s0 -> run s0 ls = Some s ->
+  reg_once h (enq_of (s_log s)).
+Proof.
+  intros inits watching s0 ls s h H0 Hr.
+  destruct (init_shape stack verify p inits watching s0 H0) as [c0 [st0 [E _]]].
+  pose proof (init_inv_ref stack verify p inits watching s0 c0 st0 H0 E) as R0.
+  pose proof (init_inv_reg inits watching s0 H0) as I0.
+  assert (G : forall ls s1 s, inv_ref stack verify p (0, c0) st0 (s_log s0) s1 -> inv_reg s1 ->
+              run s1 ls = Some s -> inv_reg s).
+  { clear ls s Hr. induction ls as [|l r IH]; intros s1 s R I Hr; cbn in Hr.
+    - inversion Hr; subst. exact I.
+    - destruct (step s1 l) as [s2|] eqn:Es; [|discriminate].
+      eapply (IH s2 s); [| |exact Hr].
+      + eapply inv_ref_step; eauto.
+      + eapply inv_reg_step; eauto. }
+  apply (ir_once s (G ls s0 s R0 I0 Hr)).
+Qed.
+
+(* C06 never_stale for every schedule of the whole system, no hypothesis left *)
+Theorem sys_never_stale_l : forall inits watching s0 ls s h,
+  snd (sys_init stack verify p inits watching) = Ok s0 -> run s0 ls = Some s ->
+  match first_reg h (taken_of (s_log s)) with
+  | Some tok => sorted_above (tok_serial tok) (deliveries h (cb_hist (s_log s)))
+  | None => deliveries h (cb_hist (s_log s)) = []
+  end.
+Proof.
+  intros. eapply sys_never_stale_partial_l; eauto. eapply handles_enqueued_once_l; eauto.
 Qed.
 
 End Proofs.
